@@ -241,3 +241,14 @@ Definition spec_violations_c13 (cs : list ncase) : list nat := find_idx (fun c =
 Definition spec_violations_c07 (cs : list ncase) : list nat := find_idx (fun c => negb (nspec_ok fl_c07 c)) cs.
 Definition spec_violations_c01 (cs : list ncase) : list nat := find_idx (fun c => negb (nspec_ok fl_c01 c)) cs.
 Definition spec_violations_c16 (cs : list ncase) : list nat := find_idx (fun c => negb (nspec_ok fl_c16 c)) cs.
+
+(* ---------- C02 with the USER synchronisation option ---------- *)
+(* With the USER option, accept_master adopts the Master declared by a peer even when the local instance does not see
+   it RUNNING (theorem user_sync_master_refuted): the "Master seen RUNNING" clause is therefore only demanded of
+   configurations without USER; a violation of that clause under USER is reported in the known-finding class *)
+Definition fl_c02_graph := mkFlags true false false true false false false false.
+Definition case_user (c : ncase) : bool := match c with (n, _, _) => o_user (n_opts n) end.
+Definition spec_violations_c02u (cs : list ncase) : list nat :=
+  find_idx (fun c => negb (nspec_ok (if case_user c then fl_c02_graph else fl_c02) c)) cs.
+Definition known_c02_user (cs : list ncase) : list nat :=
+  find_idx (fun c => case_user c && nspec_ok fl_c02_graph c && negb (nspec_ok fl_c02 c)) cs.
